@@ -1,0 +1,144 @@
+//go:build verif
+
+// Contracts for entity events (C08): what is registered for post-commit delivery, and what a delivery does.
+// Registration model: ocCnt/ocFn/ocRecv (trusted contract of bbolt's Tx.OnCommit). Comments only.
+package boltz
+
+// fireEvents: the pre-commit constraints run; if none objects, exactly one post-commit delivery of this very state is
+// registered on the context's transaction; if one objects, nothing is registered
+//@ define regOne(tx, fnName, recv) = ocCnt[tx] == old(ocCnt[tx]) + 1 && sel(ocFn[tx], old(ocCnt[tx])) == fnName && sel(ocRecv[tx], old(ocCnt[tx])) == ref(recv) && forall(k, 0 <= k && k < old(ocCnt[tx]) ==> sel(ocFn[tx], k) == sel(old(ocFn[tx]), k) && sel(ocRecv[tx], k) == sel(old(ocRecv[tx]), k))
+//@ define regNone(tx) = ocCnt[tx] == old(ocCnt[tx]) && ocFn[tx] == old(ocFn[tx]) && ocRecv[tx] == old(ocRecv[tx])
+// the registration ghosts are private: only Tx.OnCommit (and contracts that name them) change them, so a function
+// whose modifies clause does not name them is proved (or, for trusted ones, assumed) to register nothing
+//@ func (*EntityChangeState).processPreCommit
+//@   props C08 C07
+//@   errflow
+//@   nosafety
+//@   modifies *
+//@ func (EntityConstraint).ProcessPreCommit
+//@   modifies *
+//@ func (*EntityChangeState).fireEvents
+//@   props C08 C07
+//@   errflow
+//@   nosafety
+//@   modifies *, ocCnt, ocFn, ocRecv
+//@   ensures[one-delivery-registered] result == nil ==> regOne(ctxTx[self.Ctx], fnid("(*github.com/openziti/storage/boltz.EntityChangeState[E]).processPostCommit$bound"), self)
+//@   ensures[vetoed-registers-nothing] result != nil ==> ocCnt == old(ocCnt) && ocFn == old(ocFn) && ocRecv == old(ocRecv)
+//@   ensures[other-transactions-untouched] forall(t, t != ctxTx[self.Ctx] ==> sel(ocCnt, t) == sel(old(ocCnt), t) && sel(ocFn, t) == sel(old(ocFn), t) && sel(ocRecv, t) == sel(old(ocRecv), t))
+
+// a change flow seen through its interface: its context, kind, id and parent flag are views of the state's fields
+//@ ghost ecsCtx : (Array Int Int) dispatch
+//@ ghost ecsKind : (Array Int Int) dispatch
+//@ ghost ecsParent : (Array Int Bool) dispatch
+//@ ghost ecsId : (Array Int Str) dispatch
+//@ view ecsId[*EntityChangeState] = self.EntityId
+// a change state's context, kind and entity id are fixed once it has been filled (literal, init or initFromChild)
+//@ immutable H.boltz.EntityChangeState.Ctx.typ
+//@ immutable H.boltz.EntityChangeState.Ctx.val
+//@ immutable H.boltz.EntityChangeState.ChangeType
+//@ immutable H.boltz.EntityChangeState.EntityId
+//@ view ecsCtx[*EntityChangeState] = ref(self.Ctx)
+//@ view ecsKind[*EntityChangeState] = self.ChangeType
+//@ view ecsParent[*EntityChangeState] = self.ParentEvent
+//@ define ocSame() = ocCnt == old(ocCnt) && ocFn == old(ocFn) && ocRecv == old(ocRecv)
+//@ define ocOthersSame(tx) = forall(t, t != tx ==> sel(ocCnt, t) == sel(old(ocCnt), t) && sel(ocFn, t) == sel(old(ocFn), t) && sel(ocRecv, t) == sel(old(ocRecv), t))
+//@ func (entityChangeFlow).fireEvents
+//@   modifies *, ocCnt, ocFn, ocRecv
+//@   ensures[one-delivery-registered] result == nil ==> regOne(ctxTx[ecsCtx[self]], fnid("(*github.com/openziti/storage/boltz.EntityChangeState[E]).processPostCommit$bound"), self) && ocOthersSame(ctxTx[ecsCtx[self]])
+//@   ensures[vetoed-registers-nothing] result != nil ==> ocSame()
+//@ func (entityChangeFlow).initFromChild
+//@   modifies *, any EntityChangeState.Ctx, any EntityChangeState.ChangeType, any EntityChangeState.EntityId
+//@   ensures[takes-the-child-flow's-context-and-kind] ecsCtx[self] == old(ecsCtx[flow]) && ecsKind[self] == old(ecsKind[flow]) && ecsId[self] == old(ecsId[flow]) && ecsParent[self]
+//@   ensures[child-flow-untouched] ecsCtx[flow] == old(ecsCtx[flow]) && ecsKind[flow] == old(ecsKind[flow]) && ecsId[flow] == old(ecsId[flow])
+//@ func (*EntityChangeState).initFromChild
+//@   props C08
+//@   nosafety
+//@   waive immutable two-step construction: the parent state was allocated by newEntityChangeFlow just before and is filled here before anything else sees it
+//@   modifies *, self.Ctx, self.ChangeType, self.EntityId
+//@   ensures[takes-the-child-flow's-context-and-kind] ref(self.Ctx) == old(ecsCtx[flow]) && self.ChangeType == old(ecsKind[flow]) && self.ParentEvent && self.EntityId == old(ecsId[flow])
+//@ func (UntypedEntityChangeState).GetCtx
+//@   pure
+//@   ensures ref(result) == ecsCtx[self]
+//@ func (UntypedEntityChangeState).GetChangeType
+//@   pure
+//@   ensures result == ecsKind[self]
+//@ func (UntypedEntityChangeState).GetEntityId
+//@   pure
+//@   ensures result == ecsId[self]
+//@ func (UntypedEntityChangeState).GetInitialParentEntity
+//@   pure
+//@ func (UntypedEntityChangeState).GetFinalParentEntity
+//@   pure
+//@ func (entityChangeFlow).MarkParentEvent
+//@   modifies *
+//@   ensures ecsParent[self] && ecsCtx[self] == old(ecsCtx[self]) && ecsKind[self] == old(ecsKind[self])
+//@ func (storeInternal).newEntityChangeFlow
+//@   pure
+//@   ensures result != nil && fresh(result)
+
+// a child-store change also produces exactly one event on the parent store; a store without parent produces none
+//@ func (*BaseStore).fireParentEvent
+//@   props C08 C07
+//@   errflow
+//@   nosafety
+//@   modifies *, ocCnt, ocFn, ocRecv
+//@   ensures[no-parent-no-event] old(store.parent) == nil ==> result == nil && ocSame()
+//@   ensures[one-parent-event] old(store.parent) != nil && result == nil ==> ocCnt[ctxTx[ecsCtx[changeFlow]]] == old(ocCnt[ctxTx[ecsCtx[changeFlow]]]) + 1 && fresh(sel(ocRecv[ctxTx[ecsCtx[changeFlow]]], old(ocCnt[ctxTx[ecsCtx[changeFlow]]]))) && ocOthersSame(ctxTx[ecsCtx[changeFlow]])
+//@   ensures[vetoed-registers-nothing] result != nil ==> ocSame()
+
+// Create / Update: on success exactly one delivery of the store's own change (kind created / updated, final state
+// re-read after the write; for update the initial state read before it) is registered last on the context's transaction,
+// preceded by exactly one for the parent store if there is one
+//@ func (*BaseStore).Create
+//@   props C08 C07
+//@   errflow
+//@   nosafety
+//@   modifies *, ocCnt, ocFn, ocRecv
+//@   lensures[holder] bucket != nil && bucket.Err != nil ==> result != nil
+//@   lensures[own-and-parent-event] result == nil ==> ocCnt[ctxTx[ctx]] == old(ocCnt[ctxTx[ctx]]) + ite(old(store.parent) != nil, 2, 1) && sel(ocRecv[ctxTx[ctx]], ocCnt[ctxTx[ctx]] - 1) == ref(changeFlow) && changeFlow.ChangeType == EntityCreated && changeFlow.Ctx == ctx && !changeFlow.ParentEvent && ocOthersSame(ctxTx[ctx])
+//@ func (ChildStoreStrategy).HandleUpdate
+//@   props C07
+//@   impl all
+//@   modifies *, ocCnt, ocFn, ocRecv
+//@   ensures[unhandled-has-no-error] !result0 ==> result1 == nil
+//@   ensures[unhandled-registers-nothing] !result0 ==> ocSame()
+//@ func (*BaseStore).Update
+//@   props C08 C07
+//@   errflow
+//@   nosafety
+//@   modifies *, ocCnt, ocFn, ocRecv
+//@   lensures[holder] bucket != nil && bucket.Err != nil ==> result != nil
+//@   lensures[own-and-parent-event] result == nil ==> ocCnt[ctxTx[ctx]] == old(ocCnt[ctxTx[ctx]]) + ite(old(store.parent) != nil, 2, 1) && sel(ocRecv[ctxTx[ctx]], ocCnt[ctxTx[ctx]] - 1) == ref(changeFlow) && changeFlow.ChangeType == EntityUpdated && changeFlow.Ctx == ctx && !changeFlow.ParentEvent && changeFlow.InitialState == baseEntity && ocOthersSame(ctxTx[ctx])
+//@   invariant 1: ocSame()
+
+// Delete: one change flow per child store that holds the entity plus one for the store itself, each fired exactly once,
+// in order, as the last registrations; the store's own flow is marked as parent event iff a child flow exists
+//@ func (storeInternal).processDeleteConstraints
+//@   modifies *, ocCnt, ocFn, ocRecv
+//@   ensures result0 != nil ==> fresh(result0)
+//@ func (*BaseStore).processDeleteConstraints
+//@   props C07 C08
+//@   errflow
+//@   nosafety
+//@   modifies *, ocCnt, ocFn, ocRecv
+//@   lensures[holder] errHolder.Err != nil ==> result1 != nil
+//@   lensures[a-delete-flow] result0 != nil ==> result0 == changeFlow && changeFlow.ChangeType == EntityDeleted && changeFlow.Ctx == ctx && changeFlow.EntityId == id
+//@ func (Store).DeleteById
+//@   modifies *, ocCnt, ocFn, ocRecv
+//@ func (ChildStoreStrategy).HandleDelete
+//@   modifies *, ocCnt, ocFn, ocRecv
+//@ func (ChildStoreStrategy).GetStore
+//@   pure
+//@ func (*BaseStore).DeleteById
+//@   props C08 C07
+//@   errflow
+//@   nosafety
+//@   modifies *, ocCnt, ocFn, ocRecv
+//@   lensures[every-flow-fired-once-in-order] result == nil && store.parent == nil && bucket != nil ==> forall(j, 0 <= j && j < len(changeFlows) ==> sel(ocRecv[ctxTx[ctx]], ocCnt[ctxTx[ctx]] - len(changeFlows) + j) == ref(changeFlows[j]))
+//@   invariant 1: len(changeFlows) >= 1 && (hasChildren == (len(changeFlows) > 1)) && forall(j, 1 <= j && j < len(changeFlows) ==> changeFlows[j] != nil && ecsCtx[changeFlows[j]] == ref(ctx))
+//@   invariant 2: len(changeFlows) >= 1 && forall(j, 0 <= j && j < len(changeFlows) ==> changeFlows[j] != nil && ecsCtx[changeFlows[j]] == ref(ctx)) && forall(j, 0 <= j && j <= rangeindex ==> sel(ocRecv[ctxTx[ctx]], ocCnt[ctxTx[ctx]] - (rangeindex + 1) + j) == ref(changeFlows[j]))
+//@ func (*BaseStore).DeleteWhere
+//@   props C07
+//@   errflow
+//@   nosafety
+//@   modifies *, ocCnt, ocFn, ocRecv
